@@ -60,18 +60,25 @@ class C07(PropBase):
         idle = rng.randrange(0, 6)
         blocking = rng.random() < 0.3
         expect_timeout = False
+        expect_at = None
         for k, fr in enumerate(frames):
             if ending == 'gap' and k == g:
                 parts = split_gap(rng, d, idle)
+                acc = 0
                 for p in parts[:-1]:
                     ops.append({'op': 'tick', 'dt': p})
+                    acc += p
                     ops.append({'op': 'process', 'i': 0})
+                    if acc > T and expect_at is None:
+                        expect_at = len(ops) - 1
                 if blocking:
                     ops.append({'op': 'frame', 'i': 0, 'id': fid, 'ext': ext, 'data': fr, 'dt': parts[-1]})
                 else:
                     ops.append({'op': 'tick', 'dt': parts[-1]})
                     ops.append({'op': 'frame', 'i': 0, 'id': fid, 'ext': ext, 'data': fr})
                 ops.append({'op': 'process', 'i': 0})
+                if late and expect_at is None:
+                    expect_at = len(ops) - 1
                 expect_timeout = late
                 continue
             if ending in ('sf', 'toolong', 'stop') and k == g:
@@ -94,7 +101,7 @@ class C07(PropBase):
             ops.append({'op': 'tick', 'dt': rng.choice([T // 2 + 1, T + 1000, 3 * T])})
             ops.append({'op': 'process', 'i': 0})
         return {'ops': ops, 'meta': {'family': 'rx', 'T': T, 'ending': ending, 'g': g, 'late': late, 'idle': idle,
-                                     'expect_timeout': expect_timeout, 'm': bytes(m), 'nframes': len(frames)}}
+                                     'expect_timeout': expect_timeout, 'expect_at': expect_at, 'm': bytes(m), 'nframes': len(frames)}}
 
     # ------------------------------------------------------------------ TX
     def tx_family(self, rng):
@@ -121,6 +128,7 @@ class C07(PropBase):
         use_wait = wft > 0 and rng.random() < 0.5
         late_wait = use_wait and rng.random() < 0.4
         expect_timeout = False
+        expect_at = None
         fidc, ext, cts = fc_frame(a, rbs, 0)
         _, _, wait = fc_frame(a, 0, 0, status=1)
         for b in range(nrounds):
@@ -132,20 +140,27 @@ class C07(PropBase):
                         ops.append({'op': 'frame', 'i': 0, 'id': fidc, 'ext': ext, 'data': wait})
                         ops.append({'op': 'process', 'i': 0})
                         expect_timeout = True
+                        expect_at = len(ops) - 1
                         break
                     # a Wait in time restarts the deadline
                     ops.append({'op': 'tick', 'dt': T - delta})
                     ops.append({'op': 'frame', 'i': 0, 'id': fidc, 'ext': ext, 'data': wait})
                     ops.append({'op': 'process', 'i': 0})
                 parts = split_gap(rng, d, idle)
+                acc = 0
                 for p in parts[:-1]:
                     ops.append({'op': 'tick', 'dt': p})
+                    acc += p
                     ops.append({'op': 'process', 'i': 0})
+                    if acc > T and expect_at is None:
+                        expect_at = len(ops) - 1
                 ops.append({'op': 'tick', 'dt': parts[-1]})
                 ops.append({'op': 'frame', 'i': 0, 'id': fidc, 'ext': ext, 'data': cts})
                 ops.append({'op': 'process', 'i': 0})
                 expect_timeout = late
                 if late:
+                    if expect_at is None:
+                        expect_at = len(ops) - 1
                     break
             else:
                 ops.append({'op': 'tick', 'dt': rng.choice([0, 1000, max(0, T - 1000)])})
@@ -155,7 +170,7 @@ class C07(PropBase):
             ops.append({'op': 'tick', 'dt': rng.choice([T // 2 + 1, T + 1000, 3 * T])})
             ops.append({'op': 'process', 'i': 0})
         return {'ops': ops, 'meta': {'family': 'tx', 'T': T, 'late': late, 'idle': idle, 'gap_at': gap_at, 'wait': use_wait, 'late_wait': late_wait,
-                                     'expect_timeout': expect_timeout, 'rbs': rbs, 'wft': wft}}
+                                     'expect_timeout': expect_timeout, 'expect_at': expect_at, 'rbs': rbs, 'wft': wft}}
 
     def project(self, op_line, out_line):
         return trace.project_events(out_line, keep=('err', 'deliver', 'done', 'tx'), status_keys=('rx', 'tr'))
@@ -174,6 +189,8 @@ class C07(PropBase):
             if meta['expect_timeout']:
                 if len(cf_to) != 1:
                     out.append(('rx_iff', 'gap of T+delta before frame %d: %d ConsecutiveFrameTimeoutError reported, expected exactly one' % (meta['g'], len(cf_to))))
+                elif cf_to[0][0] != meta['expect_at']:
+                    out.append(('rx_iff', 'ConsecutiveFrameTimeoutError reported at op %d, but the first rx return after the deadline is op %d' % (cf_to[0][0], meta['expect_at'])))
                 if meta['m'] in delivered:
                     out.append(('rx_iff', 'message delivered although the deadline was missed'))
             else:
@@ -188,6 +205,8 @@ class C07(PropBase):
             if meta['expect_timeout']:
                 if len(fc_to) != 1:
                     out.append(('tx_iff', 'Flow Control missing at the deadline: %d FlowControlTimeoutError reported, expected exactly one' % len(fc_to)))
+                elif fc_to[0][0] != meta['expect_at']:
+                    out.append(('tx_iff', 'FlowControlTimeoutError reported at op %d, but the first tx pass after the deadline is op %d (late Flow Control honoured?)' % (fc_to[0][0], meta['expect_at'])))
                 if (1, False) not in dones or (1, True) in dones:
                     out.append(('tx_iff', 'transmission not marked failed after the missed deadline: outcomes %s' % dones))
             else:
